@@ -456,10 +456,16 @@ class FmtGen:
             out += r.choice(["\n", " ", "\n\n"]) + self.ind()
         n = r.below(4)
         for _ in range(n):
-            if r.chance(2, 3):
+            k = r.below(12)
+            if k < 7:
                 st = "%s = %s" % (r.choice(NAMES), self.expr(d - 1, sub))
-            else:
+            elif k < 10:
                 st = self.call(d - 1, sub)
+            elif k == 10:
+                # a statement whose printed form starts with "-" (must stay parenthesised)
+                st = "(-%s)" % r.choice([r.choice(NAMES), "1", "2.5"])
+            else:
+                st = self.atom()
             out += st
             if self.want() and r.chance(1, 2):
                 out += self.ws() + self.comment("do_stmt_eol", ctx)
